@@ -22,6 +22,9 @@ class BaseTransformation(ABC):
         """Type of input arrays for generalized perspective transformation"""
         self.output_array_dtype = np.ndarray
         """Type of output arrays for generalized perspective transformation"""
+        self.parameter_version = 0
+        """Counter increased whenever parameters or types of the transformation change;
+        used to invalidate quantities cached for a specific state of the transformation"""
 
     def set_dtype(
         self,
@@ -39,6 +42,9 @@ class BaseTransformation(ABC):
         """
         # Assert (implicitly) pts_src and pts_dst are lists of coordinates or voxels.
         assert pts_src.shape == pts_dst.shape, "source and target points must match"
+
+        # Mark transformation as modified
+        self.parameter_version = getattr(self, "parameter_version", 0) + 1
 
         # Update input and output type
         self.input_dtype = type(pts_src[0])
@@ -225,9 +231,15 @@ class TransformationCorrection(darsia.BaseCorrection):
         array_dst = np.zeros(shape, dtype=array_src.dtype)
         voxels_dst = self.coordinatesystem_dst.voxels
 
-        # Re-use cache
+        # Re-use cache - unless the transformation or the coordinate systems have changed
         Cache = namedtuple("Cache", ["voxels_src", "valid_voxels"])
-        if not hasattr(self, "cache"):
+        cache_key = (
+            id(self.transformation),
+            getattr(self.transformation, "parameter_version", 0),
+            id(self.coordinatesystem_src),
+            id(self.coordinatesystem_dst),
+        )
+        if not hasattr(self, "cache") or getattr(self, "cache_key", None) != cache_key:
             # Find corresponding voxels in the original image by applying the inverse map.
             # This depends on how the transformation is set up. Follow a 3-step strategy:
 
@@ -253,6 +265,7 @@ class TransformationCorrection(darsia.BaseCorrection):
 
             # Cache
             self.cache = Cache(voxels_src=voxels_src, valid_voxels=valid_voxels)
+            self.cache_key = cache_key
 
         # Warp. Assign voxel values (no interpolation)
         array_dst[tuple(voxels_dst[self.cache.valid_voxels, j] for j in range(dim))] = (
